@@ -9,9 +9,22 @@
     candidate (id [arg::..]) extends [w] and is [--]+long/alias or [-]+cluster+short/alias of an
     argument of [cur]; a subcommand candidate (id [command::..]) extends [w] and is a name or alias
     of a subcommand of [cur].  [cand_resolves cur cd] says: the parser model's key map
-    ([get_long]/[get_short]) resp. [find_subcommand] resolve that spelling at [cur]. *)
+    ([get_long]/[get_short]) resp. [find_subcommand] resolve that spelling at [cur].
+
+    Round 2 (second half of the file): the engine against the PARSER model of Parse/Parser.v.
+    Names defined by both models ([DASH], [EQ], [to_short], ...) are the engine's when unqualified,
+    the parser's are written [Parser.x].  [same_level pc cur]: the parser's level [pc] and the engine's
+    level [cur] have the same arguments and the same subcommand names/aliases.  [opt_head pc idn a st] is
+    what the parser does at the start of an occurrence of [a] without attached value ([react] for a flag,
+    [parse_opt_value] for an option), [after_opt] how the token loop goes on after it, [occ_head pc a h]:
+    [h] ends in ValuesDone / Opt(a) / EqualsNotProvided(a) or in an error raised by a reaction (never an
+    unknown-token error), [tok_accepted]: an UnknownArgument/InvalidSubcommand error of the level is not
+    caused by the token (it is the error of the tokens after it; none if it is the last word). *)
 From ClapModel Require Import Base.Bytes Base.Machine Base.Utf8.
+From ClapModel Require Import Parse.Matcher Parse.Errors Parse.Validator Parse.Parser.
+From ClapModel Require Import ParseProofs.Spelling ParseProofs.ErrorSound.
 From ClapModel Require Import Parse.Cmd Parse.Build Parse.Valid Complete.EngineModel Complete.EngineProofs.
+From ClapModel Require Import Complete.EngineAccept.
 From ClapModel Require Gen.EngineSites.
 From Coq Require Import ZArith.
 Open Scope N_scope.
@@ -91,3 +104,113 @@ Theorem C18_hidden_kept_when_nothing_visible : forall raw,
   (forall x, In x raw -> cd_hidden x = true) -> finish raw = dedup_ids [] raw.
 Proof. exact hidden_kept_when_nothing_visible. Qed.
 Print Assumptions C18_hidden_kept_when_nothing_visible.
+
+(** * Round 2: the engine's lookups against the parser model *)
+
+(** "same argument", shorts: on a level that passed [assert_app] (and whose short aliases sit on options)
+    the engine's scan for a typed short flag IS the parser's key lookup *)
+Theorem C18_same_short : forall c ch, assert_app c = true -> short_aliases_on_options c ->
+  find_short_visible c ch = get_short c ch.
+Proof. exact same_short. Qed.
+Print Assumptions C18_same_short.
+
+(** "same argument", longs: whatever the engine resolves a typed [--flag] to, the parser's key map
+    resolves to the same argument ... *)
+Theorem C18_same_long_found : forall c flag o, assert_app c = true ->
+  find_long_visible c flag = Some o -> a_index o = None -> get_long c flag = Some o.
+Proof. exact same_long_found. Qed.
+Print Assumptions C18_same_long_found.
+
+(** ... and the two lookups are equal when every argument that carries aliases has a long name *)
+Theorem C18_same_long : forall c flag, assert_app c = true -> aliased_have_long c ->
+  find_long_visible c flag = get_long c flag.
+Proof. exact same_long. Qed.
+Print Assumptions C18_same_long.
+
+(** outside that class they differ: a visible alias of an option without long name is a key of the
+    parser that the engine's scan does not see *)
+Theorem C18_same_long_refuted : exists c flag,
+  assert_app c = true /\ find_long_visible c flag = None /\ get_long c flag <> None.
+Proof. exact same_long_refuted. Qed.
+Print Assumptions C18_same_long_refuted.
+
+(** Acceptance, parser side: the token loop standing where a new argument may start, given [--s] for
+    a long name or alias [s] of option [a]: [parse_long_arg] finds [a] and its occurrence starts *)
+Theorem C18_accept_long_step : forall c a s rest pos vaf st,
+  assert_app c = true -> In a (c_args c) -> a_index a = None -> In s (long_names a) ->
+  s <> [] -> ~ In EQ s -> utf8_valid s = true ->
+  possible_subcommand c (dd ++ s) vaf = None ->
+  parse_loop c ((dd ++ s) :: rest) (mkL PSValuesDone pos vaf false) st =
+  after_opt c rest pos (opt_head c ILong a st).
+Proof. exact accept_long_step. Qed.
+Print Assumptions C18_accept_long_step.
+
+(** ... given a cluster [-r] of known flags that take no value followed by the short name/alias of [a]
+    ([cluster_ok]; a single [-x] is the one-letter case): [parse_short_arg] reacts to every flag and
+    starts the occurrence of [a] *)
+Theorem C18_accept_cluster_step : forall c a r rest pos vaf st,
+  cluster_ok c r a -> hd 0 r <> Parser.DASH ->
+  possible_subcommand c (Parser.DASH :: r) vaf = None -> fs_skip st = 0 ->
+  (match get_pos c pos with Some p => a_negnum p | None => false end && Parser.sf_is_negative_number r) = false ->
+  parse_loop c ((Parser.DASH :: r) :: rest) (mkL PSValuesDone pos vaf false) st =
+  after_opt c rest pos (do x <- short_loop c (S (length r)) r PRNoArg vaf st; ROk (fst (fst x), snd (fst x)))
+  /\ occ_head c a (do x <- short_loop c (S (length r)) r PRNoArg vaf st; ROk (fst (fst x), snd (fst x))).
+Proof. exact accept_cluster_step_occ. Qed.
+Print Assumptions C18_accept_cluster_step.
+
+(** ... given a name or alias [n] of subcommand [sc]: [possible_subcommand] selects a name of [sc] (an
+    exact name wins also under prefix inference) and the loop stops with the dispatch to it *)
+Theorem C18_accept_sub_step : forall c sc n rest pos vaf st,
+  assert_app c = true -> In sc (c_subs c) -> aliases_to sc n = true -> utf8_valid n = true ->
+  (is_set s_args_negate_subs c && vaf) = false ->
+  exists n', aliases_to sc n' = true /\ find_subcommand c n' = Some sc /\
+    possible_subcommand c n vaf = Some n' /\
+    parse_loop c (n :: rest) (mkL PSValuesDone pos vaf false) st =
+    if beq n' s_help && negb (is_set s_disable_help_sub c) then ROk (LHelpSub rest st)
+    else ROk (LSub n' false vaf st rest).
+Proof. exact accept_sub_step. Qed.
+Print Assumptions C18_accept_sub_step.
+
+(** Acceptance theorem, options: every candidate with an option id that the engine offers in state
+    [ValueDone] at level [cur] (typed cluster made of flags of the level) is, for the parser model at the
+    same level [pc], the start of an occurrence of the argument with that id: the token loop equals
+    "occurrence head [h], then the remaining tokens" ... *)
+Theorem C18_option_candidate_step : forall tbl w cur pi l cd aid pc,
+  assert_app pc = true -> short_aliases_on_options pc -> same_level pc cur ->
+  complete_arg tbl w cur pi ValueDone = COk l -> In cd l -> cd_id cd = Some (IdArg aid) ->
+  typed_known cur w ->
+  exists a, In a (c_args pc) /\ a_id a = aid /\
+    (a_is_positional a = false -> names_wf a ->
+     forall pos vaf st, quiet_state pc (cd_value cd) pos vaf st ->
+       exists h, occ_head pc a h /\
+         forall rest, parse_loop pc (cd_value cd :: rest) (mkL PSValuesDone pos vaf false) st
+                      = after_opt pc rest pos h).
+Proof. exact option_candidate_step. Qed.
+Print Assumptions C18_option_candidate_step.
+
+(** ... hence the candidate never produces UnknownArgument / InvalidSubcommand *)
+Theorem C18_option_candidate_accepted : forall tbl w cur pi l cd aid pc,
+  assert_app pc = true -> short_aliases_on_options pc -> same_level pc cur ->
+  complete_arg tbl w cur pi ValueDone = COk l -> In cd l -> cd_id cd = Some (IdArg aid) ->
+  typed_known cur w ->
+  exists a, In a (c_args pc) /\ a_id a = aid /\
+    (a_is_positional a = false -> names_wf a ->
+     forall pos vaf st, quiet_state pc (cd_value cd) pos vaf st -> tok_accepted pc (cd_value cd) pos vaf st).
+Proof. exact option_candidate_accepted. Qed.
+Print Assumptions C18_option_candidate_accepted.
+
+(** Acceptance theorem, subcommands: every candidate with a subcommand id is a name/alias of that
+    subcommand of the parser's level, [possible_subcommand] selects it and the token loop stops with the
+    dispatch to it - no error at all *)
+Theorem C18_subcommand_candidate_accepted : forall tbl w cur pi l cd n pc,
+  assert_app pc = true -> same_level pc cur ->
+  complete_arg tbl w cur pi ValueDone = COk l -> In cd l -> cd_id cd = Some (IdCmd n) ->
+  exists sc, In sc (c_subs pc) /\ c_name sc = n /\ aliases_to sc (cd_value cd) = true /\
+    (utf8_valid (cd_value cd) = true -> forall rest pos vaf st, (is_set s_args_negate_subs pc && vaf) = false ->
+     exists n', aliases_to sc n' = true /\ find_subcommand pc n' = Some sc /\
+       possible_subcommand pc (cd_value cd) vaf = Some n' /\
+       parse_loop pc (cd_value cd :: rest) (mkL PSValuesDone pos vaf false) st =
+       if beq n' s_help && negb (is_set s_disable_help_sub pc) then ROk (LHelpSub rest st)
+       else ROk (LSub n' false vaf st rest)).
+Proof. exact subcommand_candidate_accepted. Qed.
+Print Assumptions C18_subcommand_candidate_accepted.
